@@ -15,6 +15,7 @@ import (
 	"runtime/debug"
 	"sort"
 	"strings"
+	"unsafe"
 )
 
 type Status int
@@ -104,10 +105,15 @@ type Decider func(s *Sched, n int, altCost int, data bool) int
 
 type Options struct {
 	Seed      uint64
-	MemPoints bool  // MemPoint is a scheduling point
-	StepCap   int   // max scheduling steps per execution
-	HorizonNs int64 // virtual time horizon: timers beyond it never fire
-	Trace     bool
+	MemPoints bool // MemPoint is a scheduling point
+	MemVars   bool // MemVar (locals shared with goroutines started by the same function) is a scheduling point
+	// PoolRecycle: sync.Pool hands back the most recently Put object unchanged (LIFO) instead of never
+	// recycling and poisoning - the other legal extreme of a pool, which shows state that survives in a
+	// recycled object
+	PoolRecycle bool
+	StepCap     int   // max scheduling steps per execution
+	HorizonNs   int64 // virtual time horizon: timers beyond it never fire
+	Trace       bool
 	// Delay: delay-bounded instead of preemption-bounded search - the default scheduler is
 	// deterministic (keep running, else lowest thread name) and every other thread choice costs one
 	// deviation, including switches at blocking points. Data choices stay free.
@@ -162,6 +168,12 @@ func Cur() *Sched { return cur }
 func Active() bool {
 	s := cur
 	return s != nil && !s.cur.abort
+}
+
+// PoolRecycle reports whether the running scenario asked for recycling pools.
+func PoolRecycle() bool {
+	s := cur
+	return s != nil && s.opt.PoolRecycle
 }
 
 // Gen identifies the current execution (shim objects use it to reset stale state).
@@ -921,4 +933,15 @@ func RangeCheck[T any](x T) T {
 		}
 	}
 	return x
+}
+
+// MemVar is inserted by the instrumenter before statements that mention a local variable shared with a
+// goroutine started by the same function (captured by a `go func(){...}` literal). The variable
+// instance is the object: two goroutines conflict only on the same instance.
+func MemVar[T any](p *T, write bool, site string) {
+	s := cur
+	if s == nil || !(s.opt.MemVars || s.opt.MemPoints) {
+		return
+	}
+	Point(s.objAt(uintptr(unsafe.Pointer(p)), site), write, "memvar", nil)
 }
